@@ -69,6 +69,10 @@ def _run_task(task):
             # thorough tier: exploration budgets are sized for completion (an exhausted budget is inconclusive, never a pass)
             opts["max_paths"] = max(opts.get("max_paths", 0), 3_000_000)
             opts["timeout_s"] = max(opts.get("timeout_s", 0), 5400)
+        if tier == "quick":
+            # quick tier: no lemma explores for more than 20 min (about 5x the slowest lemma on the unchanged tree); a change that makes
+            # the exploration explode then ends as a violation found so far or as inconclusive, not as an hour-long run
+            opts["timeout_s"] = min(opts.get("timeout_s", 600.0), 1200.0)
         opts.update(override)
         r = explore(label, fn, allowed_exc=lm.raises, seed=seed, known=known, **opts)
         # vacuity guard: every clause named literally in the harness must have been reached on some path
